@@ -43,6 +43,7 @@ type FuncDecl struct {
 	Params  []Field `json:"params"`
 	Results []Field `json:"results"`
 	Doc     string  `json:"doc"`
+	TParams string  `json:"tparams"` // type parameter list of a generic function ("[T any]"), "" for an ordinary one
 }
 
 type TypeDecl struct {
@@ -142,7 +143,7 @@ func renderFunc(b *strings.Builder, importPath string, d FuncDecl) {
 			fmt.Fprintf(b, "(%s) ", d.Recv.Base)
 		}
 	}
-	b.WriteString(d.Name + "(")
+	b.WriteString(d.Name + d.TParams + "(")
 	var printable []string // expressions printing each flattened parameter (type-tagged), "_" when it has no usable name
 	for i, f := range d.Params {
 		if i > 0 {
@@ -490,6 +491,9 @@ func (g *Gen) genPkg(nfiles int, prefix string, used map[string]bool) Pkg {
 		if g.BadSigs && r.Chance(1, 8) {
 			d.Name = strings.ToLower(d.Name[:1]) + d.Name[1:] // unexported
 		}
+		if g.BadSigs && r.Chance(1, 10) {
+			d.TParams = []string{"[T any]", "[K comparable, V any]", "[T int | string]"}[r.Intn(3)] // a generic function is no target
+		}
 		f := pick()
 		f.Funcs = append(f.Funcs, d)
 	}
@@ -574,6 +578,9 @@ type TargetRef struct {
 }
 
 func validSig(d FuncDecl) (bool, []string) {
+	if d.TParams != "" {
+		return false, nil // cannot be called without instantiation
+	}
 	ps := d.Params
 	if len(ps) > 0 && ps[0].Ty == tyCtx {
 		if len(ps[0].Names) > 1 {
